@@ -22,6 +22,8 @@ func checkC19(w *World, r *Report, tier string) propMeta {
 	c19R5(w, r)
 	c19R6(w, r)
 	c14R2(w, r, "C19.R7")
+	c19R8(w, r)
+	c19R9(w, r)
 	return propMeta{
 		explanation: fmt.Sprintf("(R1) range checker: every decoded length or metadata framing field that reaches an allocation size or a slice bound in the read path (%d sinks) is bounded first — for each non-constant leaf of the bound expression there are dominating comparisons whose safe edge leads to the sink and whose direction (derived from the sign of the leaf on each side of the comparison, looking through + and −) provides the needed bound: lower and upper for signed values at slice bounds, upper for unsigned decoded lengths, lower for len()-derived bounds, lower locally plus the validated-metadata facts of R3–R5 for framing fields at allocations; (R2) verify before parse: JSON decoding of the footer follows the CRC-equal edge, filter decoding follows the section CRC, decompression and the uncompressed pass-through follow the row-data hash check (or the no-hash edge), rows are scanned only after a successful decode; (R3) ReadFileMetadata returns metadata only after validate succeeded; (R4) validate/validateFilterSection compare each framing field with a lower bound and, by subtraction, with an upper bound, each failing edge returning an error; (R5) planBlockFilterReads-ok precedes any open/read of the filter pass and validateFilterSection-ok precedes chunk reads and slicing; (R6) decompressors are read only through io.ReadFull into a buffer of the declared size plus a one-byte probe; (R7) failures are recorded, never dropped (= C14.R2).", nSinks),
 		notDecided:  "That no third-party decoder (gjson, bloom, snappy, zstd, encoding/json) panics on hostile input; DataBlockMetadata.UncompressedSize is not one of the framing fields the property quantifies over and is only bounded from below before it sizes the decompression buffer (an observation, recorded in DESIGN.md).",
